@@ -169,6 +169,9 @@ def run(ctx, rep) -> None:
 
     rep.attempt("exact_diagonal_flag", exact_diagonal_flag, ctx, rep, "C01.7")
     rep.attempt("_wiring", _wiring, ctx, rep)
+    from .common import hyperparameters_from_group
+
+    rep.attempt("hyperparameters_from_group", hyperparameters_from_group, ctx, rep, "C01.5")
     rep.attempt("loop_var_leak", loop_var_leak, ctx, rep, "C01.4", [f"{DS}.{n}" for n in ("_instantiate_steps", "_instantiate_momentum", "_instantiate_filtered_grads", "_instantiate_grafting", "_instantiate_shampoo_preconditioner_list", "_instantiate_distributor", "step")])
     from .arith import adagrad_arithmetic, factor_arithmetic, inverse_root_wiring, step_arithmetic
 
